@@ -31,7 +31,8 @@ Inductive exn := XAssert | XRuntime | XValue | XNotImpl | XType | XIndex | XUnav
    40 missing input state     41 no compatible primitive
    50 too many positional arguments (IndexError)  51 passed twice  52 unused keyword
    53 None compared with a number (TypeError)     60 server refused the request     70 no mode of interest
-   61 the request was registered by the server but its answer was lost     80 no such circuit parameter *)
+   61 the request was registered by the server but its answer was lost     80 no such circuit parameter
+   81 logical state / ports size mismatch *)
 Inductive res (A : Type) := Ok (a : A) | Err (e : exn) (w : nat).
 Arguments Ok {A} a.
 Arguments Err {A} e w.
@@ -43,6 +44,15 @@ Definition opt_eqb {A} (eqb : A -> A -> bool) (a b : option A) : bool :=
   match a, b with Some x, Some y => eqb x y | None, None => true | _, _ => false end.
 Definition sum (l : list nat) : nat := fold_right Nat.add 0 l.
 
+(* a Python dict with names as numbers, in insertion order; a value None is Python's None *)
+Definition dict := list (nat * option Z).
+Definition dhas (d : dict) (k : nat) : bool := existsb (fun e => fst e =? k) d.
+Definition dget (d : dict) (k : nat) : option Z :=
+  match find (fun e => fst e =? k) d with Some e => snd e | None => None end.
+Fixpoint dput (k : nat) (v : option Z) (d : dict) : dict :=
+  match d with [] => [(k, v)] | (k', v') :: r => if k' =? k then (k, v) :: r else (k', v') :: dput k v r end.
+Definition ddel (k : nat) (d : dict) : dict := filter (fun e => negb (fst e =? k)) d.
+
 (* ------------------------------------------------------------------ processor (shared by local and remote: Experiment) *)
 Record proc := mkproc {
   p_circ : circ;
@@ -52,21 +62,25 @@ Record proc := mkproc {
   p_in : option state;              (* Experiment._input_state: the FULL state (herald modes included) *)
   p_ps : option postsel;
   p_noise : option noise;
-  p_filter : option nat }.          (* min_detected_photons_filter *)
+  p_filter : option nat;            (* Experiment.min_photons_filter: what the processor reports *)
+  (* AProcessor._parameters: every dict object this attribute has been bound to, the last one being the current one
+     (clear_parameters rebinds it; a job keeps the dict it was created with). Names: 0 min_detected_photons,
+     1.. platform parameters set by the user *)
+  p_pdicts : list dict }.
 
 Definition p_size (p : proc) : nat := c_size (p_circ p).                (* circuit_size *)
 Definition msize (p : proc) : nat := p_size p - length (p_her p).      (* m: modes of interest *)
 
 Definition set_in (p : proc) (v : option state) :=
-  mkproc (p_circ p) (p_pnames p) (p_ports p) (p_her p) v (p_ps p) (p_noise p) (p_filter p).
+  mkproc (p_circ p) (p_pnames p) (p_ports p) (p_her p) v (p_ps p) (p_noise p) (p_filter p) (p_pdicts p).
 Definition set_her (p : proc) (v : list (nat * nat)) :=
-  mkproc (p_circ p) (p_pnames p) (p_ports p) v (p_in p) (p_ps p) (p_noise p) (p_filter p).
+  mkproc (p_circ p) (p_pnames p) (p_ports p) v (p_in p) (p_ps p) (p_noise p) (p_filter p) (p_pdicts p).
 Definition set_ps (p : proc) (v : option postsel) :=
-  mkproc (p_circ p) (p_pnames p) (p_ports p) (p_her p) (p_in p) v (p_noise p) (p_filter p).
+  mkproc (p_circ p) (p_pnames p) (p_ports p) (p_her p) (p_in p) v (p_noise p) (p_filter p) (p_pdicts p).
 Definition set_noise (p : proc) (v : option noise) :=
-  mkproc (p_circ p) (p_pnames p) (p_ports p) (p_her p) (p_in p) (p_ps p) v (p_filter p).
+  mkproc (p_circ p) (p_pnames p) (p_ports p) (p_her p) (p_in p) (p_ps p) v (p_filter p) (p_pdicts p).
 Definition set_filter (p : proc) (v : option nat) :=
-  mkproc (p_circ p) (p_pnames p) (p_ports p) (p_her p) (p_in p) (p_ps p) (p_noise p) v.
+  mkproc (p_circ p) (p_pnames p) (p_ports p) (p_her p) (p_in p) (p_ps p) (p_noise p) v (p_pdicts p).
 
 Definition her_find (h : list (nat * nat)) (k : nat) : option nat :=
   match find (fun e => fst e =? k) h with Some e => Some (snd e) | None => None end.
@@ -90,6 +104,15 @@ Fixpoint remove_her (h : list (nat * nat)) (k : nat) (st : state) : state :=
   | x :: r => if is_her h k then remove_her h (S k) r else x :: remove_her h (S k) r
   end.
 
+Definition zf (f : option nat) : option Z := option_map Z.of_nat f.
+Definition cur_params (p : proc) : dict := last (p_pdicts p) [].
+Definition set_pdicts (p : proc) (v : list dict) :=
+  mkproc (p_circ p) (p_pnames p) (p_ports p) (p_her p) (p_in p) (p_ps p) (p_noise p) (p_filter p) v.
+Definition upd_params (p : proc) (f : dict -> dict) : proc :=
+  set_pdicts p (removelast (p_pdicts p) ++ [f (cur_params p)]).
+(* AProcessor._set_min_photons_parameter *)
+Definition sync (p : proc) : proc := upd_params p (dput 0 (zf (p_filter p))).
+
 Inductive pop :=
 | OInput (st : state)               (* with_input(BasicState(st)) *)
 | OFilter (n : option nat)          (* min_detected_photons_filter(n) *)
@@ -97,18 +120,35 @@ Inductive pop :=
 | OPostsel (ps : postsel)           (* set_postselection *)
 | OClearPs                          (* clear_postselection *)
 | OHerald (mode expected : nat)     (* add_herald *)
-| OParam (name : nat) (v : Z).      (* get_circuit_parameters()[name].set_value(v): no structural change *)
+| OParam (name : nat) (v : Z)       (* get_circuit_parameters()[name].set_value(v): no structural change *)
+(* other routes by which the fields of a request get their value *)
+| OExpFilter (n : option nat)       (* proc.experiment.min_detected_photons_filter(n): the processor is not told *)
+| OSetParam (k : nat) (v : option Z)   (* set_parameter(name, v); name 0 is 'min_detected_photons' itself *)
+| OClearParams                      (* clear_parameters(): a new empty dict *)
+| OInputLogical (bits : list nat)   (* with_input(LogicalState(bits)), every port being a RAW port *)
+| OAssignExp (c : circ) (pn : list nat) (f : option nat) (nz : option noise) (inp : option state).
+                                    (* proc.experiment = Experiment(circuit, noise=nz) with filter f and input inp *)
 
 Fixpoint vput (k : nat) (v : Z) (d : list (nat * Z)) : list (nat * Z) :=
   match d with [] => [(k, v)] | (k', v') :: r => if k' =? k then (k, v) :: r else (k', v') :: vput k v r end.
 Definition set_circ (p : proc) (c : circ) :=
-  mkproc c (p_pnames p) (p_ports p) (p_her p) (p_in p) (p_ps p) (p_noise p) (p_filter p).
+  mkproc c (p_pnames p) (p_ports p) (p_her p) (p_in p) (p_ps p) (p_noise p) (p_filter p) (p_pdicts p).
 
 Definition apply_op (p : proc) (o : pop) : res proc :=
   match o with
   | OInput st =>
       if length st =? msize p then Ok (set_in p (Some (merge_in (p_her p) 0 (p_size p) st))) else Err XAssert 1
-  | OFilter n => Ok (set_filter p n)
+  | OFilter n => Ok (sync (set_filter p n))
+  | OExpFilter n => Ok (set_filter p n)
+  | OSetParam k v => Ok (upd_params p (dput k v))
+  | OClearParams => Ok (set_pdicts p (p_pdicts p ++ [[]]))
+  | OInputLogical bits =>
+      if negb (length bits =? length (p_ports p)) then Err XValue 81
+      else
+        (* the default filter is written into the experiment BEFORE the state is checked *)
+        let p1 := match p_filter p with None => set_filter p (Some (sum bits)) | Some _ => p end in
+        if length bits =? msize p1 then Ok (set_in p1 (Some (merge_in (p_her p1) 0 (p_size p1) bits))) else Err XAssert 1
+  | OAssignExp c pn f nz inp => Ok (mkproc c pn [] [] inp None nz f (p_pdicts p))
   | ONoise nz => Ok (set_noise p nz)
   | OPostsel ps => Ok (set_ps p (Some ps))
   | OClearPs => Ok (set_ps p None)
@@ -121,6 +161,17 @@ Definition apply_op (p : proc) (o : pop) : res proc :=
       if existsb (Nat.eqb n) (p_pnames p)
       then Ok (set_circ p (mkcirc (c_id (p_circ p)) (c_size (p_circ p)) (c_lab (p_circ p)) (vput n v (c_vals (p_circ p)))))
       else Err XKey 80
+  end.
+
+(* what a REFUSED operation leaves behind: with_input(LogicalState) has already written the default filter into the
+   experiment when the converted state fails the length check *)
+Definition op_residue (p : proc) (o : pop) : proc :=
+  match o with
+  | OInputLogical bits =>
+      if length bits =? length (p_ports p)
+      then match p_filter p with None => set_filter p (Some (sum bits)) | Some _ => p end
+      else p
+  | _ => p
   end.
 
 (* ------------------------------------------------------------------ local -> remote conversion *)
@@ -144,7 +195,8 @@ Definition relabelled (lp : proc) : proc :=
          None
          (option_map (relabel_ps sg) (p_ps lp))
          (Some (noise_sem (p_noise lp)))          (* Processor.noise returns NoiseModel() when unset *)
-         (p_filter lp).
+         (p_filter lp)
+         [[(0, zf (p_filter lp))]].     (* a new RemoteProcessor, then the filter setter *)
 
 (* from_local_processor.  [old = false]: the code as it is now (repo commit 55925315): a BasicState input is passed to
    with_input without its heralded modes.  [old = true]: the code before that repair passed the stored full state. *)
@@ -183,7 +235,8 @@ Definition check_input (pf : platform) (p : proc) (st : state) : res unit :=
   else Ok tt.
 
 (* RemoteProcessor(rpc_handler, m = size) then set_circuit(c) (checked at once) or add(0, c) *)
-Definition new_proc (c : circ) (pnames : list nat) : proc := mkproc c pnames [] [] None None None None.
+(* AProcessor.__init__ writes min_detected_photons = None into a fresh parameter dict *)
+Definition new_proc (c : circ) (pnames : list nat) : proc := mkproc c pnames [] [] None None None None [[(0, None)]].
 Definition new_remote (pf : platform) (c : circ) (pnames : list nat) (via_set : bool) : res proc :=
   let p := new_proc c pnames in
   if via_set then do _ <- check_circuit pf p; Ok p else Ok p.
@@ -201,12 +254,11 @@ Inductive ientry :=
 | INoise (n : noise) | IUnknown (k : nat) | IBadType (k : nat).
 Definition iteration := list ientry.                 (* a dict in insertion order *)
 
-Definition dict := list (nat * option Z).            (* name -> value; names: 0 max_samples, 1 max_shots, others free *)
 Record ctx := mkctx { cx_conv : option (nat * nat);  (* result_mapping: converter (primitive, method) *)
                       cx_map : option dict }.        (* mapping_delta_parameters *)
 
 Inductive pval :=
-| VCmd (c : nat) | VCirc (c : circ) | VState (s : state) | VParams (f : option nat) | VPs (p : postsel)
+| VCmd (c : nat) | VCirc (c : circ) | VState (s : state) | VParams (d : dict) | VPs (p : postsel)
 | VHer (h : list (nat * nat)) | VNoise (n : noise) | VIter (l : list iteration) | VNum (z : option Z)
 | VCtx (c : option ctx).
 Definition payload := list (pkey * pval).
@@ -235,7 +287,7 @@ Definition prepare (pf : platform) (p : proc) (cmd : nat) : res payload :=
               end;
       Ok ([(KCommand, VCmd cmd); (KCircuit, VCirc (p_circ p))]
             ++ match p_in p with Some st => [(KInput, VState st)] | None => [] end
-            ++ [(KParams, VParams (p_filter p))]
+            ++ [(KParams, VParams (cur_params (sync p)))]
             ++ match p_ps p with Some ps => [(KPostsel, VPs ps)] | None => [] end
             ++ match p_her p with [] => [] | h => [(KHeralds, VHer h)] end
             ++ match p_noise p with Some n => [(KNoise, VNoise n)] | None => [] end)
@@ -252,7 +304,7 @@ Definition describe (pl : payload) : view :=
          (match lookup KHeralds pl with Some (VHer h) => h | _ => [] end)
          (match lookup KPostsel pl with Some (VPs p) => Some p | _ => None end)
          (match lookup KNoise pl with Some (VNoise n) => Some n | _ => None end)
-         (match lookup KParams pl with Some (VParams f) => f | _ => None end).
+         (match lookup KParams pl with Some (VParams d) => option_map Z.to_nat (dget d 0) | _ => None end).
 Definition view_of (p : proc) (cmd : nat) : view :=
   mkview (Some cmd) (Some (p_circ p)) (p_in p) (p_her p) (p_ps p) (p_noise p) (p_filter p).
 Definition num_of (k : pkey) (pl : payload) : option (option Z) :=
@@ -299,12 +351,13 @@ Record job := mkjob {
   j_cmd : dict; j_map : dict;      (* delta_parameters *)
   j_conv : option (meth * meth);   (* job_context result_mapping *)
   j_gen : nat;                     (* which iterator list object the payload refers to *)
+  j_pgen : nat;                    (* which parameter dict object the payload refers to *)
   j_done : bool;
   j_built : proc;                  (* ghost: the processor the job was created from *)
   j_method : meth }.               (* ghost: what the user asked for *)
 
 Definition mark_done (j : job) : job :=
-  mkjob (j_pl j) (j_names j) (j_cmd j) (j_map j) (j_conv j) (j_gen j) true (j_built j) (j_method j).
+  mkjob (j_pl j) (j_names j) (j_cmd j) (j_map j) (j_conv j) (j_gen j) (j_pgen j) true (j_built j) (j_method j).
 
 Definition create_job (pf : platform) (p : proc) (shots : Z) (its : list iteration) (gen : nat) (m : meth) : res job :=
   if negb (input_available p its) then Err XAssert 40 else
@@ -322,17 +375,15 @@ Definition create_job (pf : platform) (p : proc) (shots : Z) (its : list iterati
       do pl <- prepare pf p (meth_code prim);
       let pl1 := match its with [] => pl | _ => dset KIterator (VIter its) pl end in
       let pl2 := dset KMaxShots (VNum (Some shots)) pl1 in
-      Ok (mkjob pl2 names (fst cm) (snd cm) conv gen false p m)
+      Ok (mkjob pl2 names (fst cm) (snd cm) conv gen (length (p_pdicts p) - 1) false p m)
   end.
 
-(* ------------------------------------------------------------------ Job._handle_params *)
-Definition dhas (d : dict) (k : nat) : bool := existsb (fun e => fst e =? k) d.
-Definition dget (d : dict) (k : nat) : option Z :=
-  match find (fun e => fst e =? k) d with Some e => snd e | None => None end.
-Fixpoint dput (k : nat) (v : option Z) (d : dict) : dict :=
-  match d with [] => [(k, v)] | (k', v') :: r => if k' =? k then (k, v) :: r else (k', v') :: dput k v r end.
-Definition ddel (k : nat) (d : dict) : dict := filter (fun e => negb (fst e =? k)) d.
+Definition job_sync (pf : platform) (p : proc) (its : list iteration) (m : meth) : proc :=
+  if input_available p its
+  then match select pf m, p_filter p with Some _, Some _ => sync p | _, _ => p end
+  else p.
 
+(* ------------------------------------------------------------------ Job._handle_params *)
 Fixpoint positional (names : list nat) (args : list (option Z)) (kw cmd : dict) : res dict :=
   match args with
   | [] => Ok cmd
@@ -381,13 +432,13 @@ Definition job_ctx (conv : option (meth * meth)) (mapp : dict) : option ctx :=
   | _ => Some (mkctx cv (Some mapp))
   end.
 (* 'parameters' is the processor's own dict and 'iterator' the sampler's own list: both are read at execution *)
-Definition refresh (pl : payload) (cur_filter : option nat) (cur_iter : list iteration) : payload :=
-  refresh1 KIterator (VIter cur_iter) (refresh1 KParams (VParams cur_filter) pl).
+Definition refresh (pl : payload) (live_params : dict) (cur_iter : list iteration) : payload :=
+  refresh1 KIterator (VIter cur_iter) (refresh1 KParams (VParams live_params) pl).
 
-Definition exec_payload (j : job) (cur_filter : option nat) (cur_iter : list iteration)
+Definition exec_payload (j : job) (live_params : dict) (cur_iter : list iteration)
            (args : list (option Z)) (kw : dict) : res payload :=
   do cm <- handle_params (j_names j) (j_cmd j) (j_map j) args kw;
-  let pl0 := refresh (j_pl j) cur_filter cur_iter in
+  let pl0 := refresh (j_pl j) live_params cur_iter in
   let pl1 := update_cmd (fst cm) pl0 in
   let pl2 := dset KJobContext (VCtx (job_ctx (j_conv j) (snd cm))) pl1 in
   clamp pl2.
@@ -427,7 +478,8 @@ Definition step (s : sess) (e : ev) : sess * obs :=
   | EProc o =>
       match apply_op (s_proc s) o with
       | Ok p' => (mksess (s_pf s) p' (s_shots s) (s_gens s) (s_jobs s) (s_net s) (s_created s), ODone)
-      | Err x w => (s, ORaised x w)
+      | Err x w => (mksess (s_pf s) (op_residue (s_proc s) o) (s_shots s) (s_gens s) (s_jobs s) (s_net s) (s_created s),
+                    ORaised x w)
       end
   | EAddIter it =>
       match check_iteration (s_pf s) (s_proc s) it with
@@ -437,9 +489,12 @@ Definition step (s : sess) (e : ev) : sess * obs :=
       end
   | EClear => (mksess (s_pf s) (s_proc s) (s_shots s) (s_gens s ++ [[]]) (s_jobs s) (s_net s) (s_created s), ODone)
   | EJob m =>
+      (* prepare_job_payload re-synchronises the parameter dict with the filter as soon as it is reached with a filter,
+         also when a later check refuses the job *)
+      let p' := job_sync (s_pf s) (s_proc s) (cur_iters s) m in
       match create_job (s_pf s) (s_proc s) (s_shots s) (cur_iters s) (length (s_gens s) - 1) m with
-      | Ok j => (mksess (s_pf s) (s_proc s) (s_shots s) (s_gens s) (s_jobs s ++ [j]) (s_net s) (s_created s), ODone)
-      | Err x w => (s, ORaised x w)
+      | Ok j => (mksess (s_pf s) p' (s_shots s) (s_gens s) (s_jobs s ++ [j]) (s_net s) (s_created s), ODone)
+      | Err x w => (mksess (s_pf s) p' (s_shots s) (s_gens s) (s_jobs s) (s_net s) (s_created s), ORaised x w)
       end
   | EExec k args kw answer =>
       match nth_error (s_jobs s) k with
@@ -448,7 +503,7 @@ Definition step (s : sess) (e : ev) : sess * obs :=
           if j_done j then (s, OSkip)        (* re-execution of a job is property C17's matter *)
           else
             let jobs' := set_nth k (mark_done j) (s_jobs s) in
-            match exec_payload j (p_filter (s_proc s)) (nth (j_gen j) (s_gens s) []) args kw with
+            match exec_payload j (nth (j_pgen j) (p_pdicts (s_proc s)) []) (nth (j_gen j) (s_gens s) []) args kw with
             | Err x w => (mksess (s_pf s) (s_proc s) (s_shots s) (s_gens s) jobs' (s_net s) (s_created s), ORaised x w)
             | Ok r =>
                 (mksess (s_pf s) (s_proc s) (s_shots s) (s_gens s) jobs' (s_net s ++ [(r, k)])
